@@ -244,9 +244,11 @@ _run_c16_tsx = run
 
 
 def run(ctx):
-    own, none = composite.split_replay(ctx, ["cms", "mfpad"])
+    own, none = composite.split_replay(ctx, ["cms", "mfpad", "csvfy"])
     cov, f, k = ({"evaluations": 0, "distinct_nontrivial": 0}, [], []) if none else _run_c16_tsx(own)
     cov, f, k = composite.second(ctx, "C16", "C16CM", ["cms"], cov, f, k,
                                  "Relic.Props.C02.cms_accept_implies / cms_contenttype_bound (model Relic.Cms vs lib/pkcs7 Verify)")
+    cov, f, k = composite.second(ctx, "C16", "C16CSV", ["csvfy"], cov, f, k,
+                                 "Relic.Props.C02.csblob_accept_iff on BER forms of the CMS item (foreign signatures stay valid)")
     return composite.second(ctx, "C16", "C16MF", ["mfpad"], cov, f, k,
                             "Relic.Props.C16.wrap_lines_complete, adding_timestamp_preserves_signed on tokens of every length residue (ops tied to the model under C10)", parallel=4)
